@@ -3,6 +3,7 @@ import re
 
 import harness
 import ir
+from ir import loc, walk
 import mir
 
 W = re.compile(r"\bT\b")
@@ -199,6 +200,49 @@ def rule_coerce(rep):
     return n
 
 
+# loop-carried accumulations in the sample type inside the table-building code: each one is a place where f32 rounding compounds over
+# thousands of points (f64 hides it).  The reviewed set is what the tree has today; a new accumulator is reported.
+REVIEWED_ACCUMULATORS = {
+    ("sinc::make_sincs", "sum"): "normalisation sum over the whole table (the known dominant f32 error; divides every tap, so it scales the table but does not move its zeros)",
+}
+TABLE_BUILDERS = [("sinc", "make_sincs"), ("sinc", "sinc"), ("windows", "make_window"), ("windows", "blackman_harris"), ("windows", "blackman"), ("windows", "hann"),
+                  ("windows", "calculate_cutoff")]
+
+
+def rule_accumulators(rep):
+    facts = rep.ctx.facts
+    R = "R-C17-accumulators"
+    n = 0
+    for mod, name in TABLE_BUILDERS:
+        fn = facts.free_fn(mod, name)
+        if fn is None or not fn.get("body"):
+            rep.ob(R, "%s::%s" % (mod, name), False, "table-building function not found", "src/%s.rs" % mod)
+            continue
+        n += 1
+        acc = []
+        for lp in walk(fn["body"]):
+            if lp.get("k") not in ("for", "while", "loop"):
+                continue
+            for x in walk(lp["body"]):
+                tgt = None
+                if x.get("k") == "opassign" and ir.is_path(x["l"]):
+                    tgt = x["l"]["p"]
+                elif x.get("k") == "assign" and ir.is_path(x["l"]) and any(ir.is_path(y, x["l"]["p"]) for y in walk(x["r"])):
+                    tgt = x["l"]["p"]
+                if tgt is None:
+                    continue
+                b = ir.binding_of(fn, x["l"], tgt)
+                # declared outside the loop => carried from one iteration to the next
+                inside = b is not None and b[0] == "let" and any(y is b[1] for y in walk(lp["body"]))
+                if not inside:
+                    acc.append((tgt, x))
+        new = [(t, x) for t, x in acc if ("%s::%s" % (mod, name), t) not in REVIEWED_ACCUMULATORS]
+        rep.ob(R, "%s::%s" % (mod, name), not new,
+               "loop-carried accumulation in the sample type: %s - rounding compounds over the points of the table in f32 (invisible in f64); every point must be computed from "
+               "its integer index in closed form" % sorted({t for t, _ in new}) if new else "no loop-carried accumulation besides the reviewed ones %s" % sorted({t for t, _ in acc}),
+               loc(fn, new[0][1]) if new else loc(fn))
+
+
 def run(rep):
     ctx = rep.ctx
     try:
@@ -209,6 +253,22 @@ def run(rep):
     rep.guarded("R-C17-noninterference", rule_generic, pdoc)
     rep.guarded("R-C17-concrete", rule_concrete, pdoc)
     rep.guarded("R-C17-coerce", rule_coerce)
+    # the value clause (f32 output = f64 output to within rounding): structural necessary conditions only
+    rep.guarded("R-C17-accumulators", rule_accumulators)
+    rep.floor("R-C17-accumulators", 7)
+    rep.clause("R-C17-accumulators", "the table-building code (make_sincs, sinc, the window functions) computes every point in closed form from its integer index: no loop-carried "
+                                     "accumulation in the sample type besides the reviewed normalisation sum")
+    import C01
+    import C15
+    import sincmodel
+    rep.guarded("R-C01-grid", lambda r: C01.rule_grid(r, sincmodel.extract_make_sincs(r.ctx.facts)))
+    rep.guarded("R-C15-lanes", lambda r: C15.run_all_kernels(r, "R-C15-lanes"))
+    rep.guarded("R-C15-dispatch", C15.rule_dispatch)
+    rep.floor("R-C01-grid", 6)
+    rep.floor("R-C15-lanes", 61)
+    rep.floor("R-C15-dispatch", 24)
+    rep.clause("R-C01-grid / R-C15-lanes / R-C15-dispatch", "both instantiations build the same table (argument (x − centre)·f_cutoff/factor per point) and the f32 and f64 kernels of every "
+                                                            "instruction set add exactly the same products of an unmodified table (shared with C01 / C15)")
     if ctx.tier == "thorough":
         try:
             p2 = mir.mode_p(ctx.repo, features=["--no-default-features"], tag="nofft")
